@@ -349,6 +349,18 @@ Theorem C20_layer_value_monotone : forall fam cm lo hi a4 v v',
 Proof. exact value_shown_monotone. Qed.
 Print Assumptions C20_layer_value_monotone.
 
+(* every constant layer, the infinities included, gets alpha 0 in colour mode (what DrawInfLayer observes) ... *)
+Theorem C20_constant_layer_alpha_zero : forall c, c <> XNaN -> alpha_color_mode c c c = AZero.
+Proof. exact constant_layer_alpha_zero. Qed.
+Print Assumptions C20_constant_layer_alpha_zero.
+
+(* ... whereas guarding the division by  span = vmax - vmin; span != 0  hands Matplotlib NaN for a layer of +-inf *)
+Theorem C20_span_guard_refuted :
+  alpha_color_mode_span PInf PInf PInf = ANaN /\ alpha_color_mode_span NInf NInf NInf = ANaN /\
+  (forall z, alpha_color_mode_span (Fin z) (Fin z) (Fin z) = AZero).
+Proof. exact span_guard_refuted. Qed.
+Print Assumptions C20_span_guard_refuted.
+
 Theorem C20_layer_alpha_proper : forall fam lo hi a4 v,
   lo <= hi -> 0 < a4 <= 4 -> 0 <= value_shown fam true lo hi a4 v <= 4 * (hi - lo).
 Proof. exact value_shown_alpha. Qed.
@@ -471,4 +483,11 @@ Example C20_example_round3 :
   obs_layer ex_space [[3; 3]; [3; 3]; [3; 3]] true None None 4 true = [0; 2; 3; 0; 0; 0; 0; 0; 0; 1] /\
   obs_layer (c_space enc_case) [[3]; [5]] true (Some 3) (Some 3) 4 false = [0; 1; 2; 0; 0; 0] /\
   value_shown Orth true 0 8 2 5 = 10 /\ value_shown Hex true 0 8 2 5 = 10 /\ value_shown Orth true 0 8 2 20 = 32.
+Proof. vm_compute. repeat split; reflexivity. Qed.
+
+Example C20_example_inf_layer :
+  snd (step ex_space [] (init_state ex_case) (DrawInfLayer true false)) = [0; 2; 3; 0; 0; 0; 0; 0; 0] /\
+  snd (step (c_space enc_case) [] {| st_agents := []; st_layer := Some [[1]; [2]] |} (DrawInfLayer false true))
+    = [0; 1; 2; -1000000007; -1000000007] /\
+  snd (step (c_space enc_case) [] (init_state enc_case) (DrawInfLayer true true)) = [-2].
 Proof. vm_compute. repeat split; reflexivity. Qed.
